@@ -12,7 +12,7 @@ CONSTANTS
   NoEvent = {3, 6, 9, 12}
   Big = {2, 11}
   SlotRep <- MCSlotRep3
-  Forms = {"direct", "shift", "fn", "reput", "noabort"}
+  Forms = {"direct", "shift", "fn", "reput", "peek", "noabort"}
   RefIds = {1, 2, 3}
   BorrowTys = {"N", "R", "Q"}
 INVARIANTS TypeOK Conservation OnePlace WellFormed EventsOnce RefTypeOK UsableIsLive NoRefsOutsideTx SimEmit
